@@ -6,6 +6,7 @@ import (
 	"fmt"
 	"go/ast"
 	"go/types"
+	"golang.org/x/tools/go/packages"
 	"os"
 	"path/filepath"
 	"sort"
@@ -536,7 +537,44 @@ func (w *World) genNames(repo string) {
 				}
 			}
 		}
-		if err := os.WriteFile(file, []byte(strings.Join(out, "\n")), 0644); err != nil {
+		text := strings.Join(out, "\n")
+		// field-name snapshots of the package's struct types
+		const fb, fe = "// >>> field snapshots (govc -gen-names)", "// <<< field snapshots"
+		if i := strings.Index(text, fb); i >= 0 {
+			if j := strings.Index(text, fe); j > i {
+				text = strings.TrimRight(text[:i], "\n") + "\n" + strings.TrimLeft(text[j+len(fe):], "\n")
+			}
+		}
+		var pkg *packages.Package
+		for _, p := range w.Pkgs {
+			if len(p.GoFiles) > 0 && filepath.Dir(p.GoFiles[0]) == filepath.Dir(file) {
+				pkg = p
+			}
+		}
+		if pkg != nil {
+			var lines []string
+			names := pkg.Types.Scope().Names()
+			sort.Strings(names)
+			for _, n := range names {
+				tn, ok := pkg.Types.Scope().Lookup(n).(*types.TypeName)
+				if !ok {
+					continue
+				}
+				st, ok := tn.Type().Underlying().(*types.Struct)
+				if !ok || st.NumFields() == 0 {
+					continue
+				}
+				var fs []string
+				for i := 0; i < st.NumFields(); i++ {
+					fs = append(fs, st.Field(i).Name())
+				}
+				lines = append(lines, "//@ fields "+n+" "+strings.Join(fs, " "))
+			}
+			if len(lines) > 0 {
+				text = strings.TrimRight(text, "\n") + "\n\n" + fb + "\n" + strings.Join(lines, "\n") + "\n" + fe + "\n"
+			}
+		}
+		if err := os.WriteFile(file, []byte(text), 0644); err != nil {
 			fmt.Fprintln(os.Stderr, "govc:", err)
 		}
 		fmt.Println("updated", file, len(eds), "contracts")
